@@ -296,6 +296,19 @@ def repeated_motif(chords, hairpins_between: int, copies: int = 2) -> Tuple[str,
     return (seq_for(n, k), tuple(sorted(pairs)))
 
 
+def decoy_texts(n: int):
+    """BPSEQ texts of two other structures on the same n positions (a fully nested ladder and adjacent pairs): objects
+    built from them AFTER the object under test and kept alive while it is queried - what one object answers must not
+    depend on which other objects exist"""
+    if n < 2:
+        return []
+    ladder_pairs = [(i, n + 1 - i) for i in range(1, n // 2 + 1)]
+    adjacent = [(i, i + 1) for i in range(1, n, 2)]
+    shifted = [(i, i + 2) for i in range(1, n - 1, 4)]
+    seq = "N" * n
+    return [bpseq_text(seq, ps) for ps in (ladder_pairs, adjacent, shifted)]
+
+
 def seq_for(n: int, salt: int = 0) -> str:
     return "".join(SEQ_LETTERS[(k * 7 + salt * 3 + (k // 5)) % len(SEQ_LETTERS)] for k in range(n))
 
